@@ -241,7 +241,9 @@ def union_stages(run):
             raise AnalysisError(f"R18d: cannot resolve the options `{unparse(o)}` of a union stage to an Options(...) call")
         fl = {k.arg for k in ctor.keywords if k.arg in FLAGS and isinstance(k.value, ast.Constant) and k.value.value is True}
         lowered = [k.arg for k in ctor.keywords if k.arg in FLAGS and not (isinstance(k.value, ast.Constant) and k.value.value is True)]
-        extra = [k.arg for k in ctor.keywords if k.arg not in FLAGS]
+        POLICIES = ("invalid_items", "invalid_keys", "invalid_values")
+        extra = [k.arg for k in ctor.keywords if k.arg not in FLAGS and not (
+            k.arg in POLICIES and isinstance(k.value, ast.Constant) and k.value.value == "throw")]
         out.append((n, unparse(o), fl, lowered, extra))
     return f, fa, out
 
